@@ -187,3 +187,113 @@ Theorem convert_ramp_length ramp ct : List.length (convert_ramp ramp ct) = ceil_
 Proof.
   unfold convert_ramp. destruct (Qlt_le_dec ct 1); unfold convert_fine, convert_coarse; rewrite map_length, seq_length; reflexivity.
 Qed.
+
+(* ---------- exactness at the knots: where the grid is finer (k = 1/ct grid steps per profile step), the converted profile takes the
+   given value i exactly at the end of profile step i ---------- *)
+Lemma nth_map_seq_gen (F : nat -> Q) m j : (j < m)%nat -> nth j (map F (seq 0 m)) 0 = F j.
+Proof.
+  intros H. rewrite (nth_indep _ 0 (F 0%nat)) by (rewrite map_length, seq_length; exact H).
+  rewrite map_nth. rewrite seq_nth by exact H. reflexivity.
+Qed.
+Lemma Qle_bool_comp a a' b : a == a' -> Qle_bool a b = Qle_bool a' b.
+Proof.
+  intros E. destruct (Qle_bool a b) eqn:E1; destruct (Qle_bool a' b) eqn:E2; try reflexivity.
+  - apply Qle_bool_iff in E1. assert (a' <= b) by (rewrite <- E; exact E1). apply Qle_bool_iff in H. congruence.
+  - apply Qle_bool_iff in E2. assert (a <= b) by (rewrite E; exact E2). apply Qle_bool_iff in H. congruence.
+Qed.
+Lemma Qle_bool_false_of_lt a b : b < a -> Qle_bool a b = false.
+Proof. intros H. destruct (Qle_bool a b) eqn:E; [|reflexivity]. apply Qle_bool_iff in E. lra. Qed.
+Lemma interp_comp : forall xs ys x x', x == x' -> interp xs ys x == interp xs ys x'.
+Proof.
+  induction xs as [|x0 xs IH]; intros ys x x' E; destruct ys as [|y0 ys]; cbn [interp]; try reflexivity.
+  rewrite (Qle_bool_comp x x' x0 E). destruct (Qle_bool x' x0); [reflexivity|].
+  destruct xs as [|x1 xs']; destruct ys as [|y1 ys']; try reflexivity.
+  rewrite (Qle_bool_comp x x' x1 E). destruct (Qle_bool x' x1); [rewrite E; reflexivity|]. apply IH. exact E.
+Qed.
+
+Definition knots (k : Q) (off n : nat) : list Q := map (fun j => qnat (S (off + j)) * k) (seq 0 n).
+Lemma knots_cons k off n : knots k off (S n) = qnat (S off) * k :: knots k (S off) n.
+Proof.
+  unfold knots. cbn [seq map]. rewrite Nat.add_0_r. f_equal. rewrite <- seq_shift, map_map. apply map_ext. intros x. do 2 f_equal. lia.
+Qed.
+Lemma qnat_lt (a b : nat) : (a < b)%nat -> qnat a < qnat b.
+Proof. intros H. unfold qnat. rewrite <- Zlt_Qlt. lia. Qed.
+Lemma qnat_S a : qnat (S a) == qnat a + 1.
+Proof. unfold qnat. rewrite Nat2Z.inj_succ, <- Z.add_1_r, inject_Z_plus. reflexivity. Qed.
+
+Lemma interp_at_knot : forall (n : nat) (k : Q) (ys : vec) (off i : nat), 0 < k -> List.length ys = n -> (i < n)%nat ->
+  interp (knots k off n) ys (qnat (S (off + i)) * k) == nth i ys 0.
+Proof.
+  induction n as [|n IH]; intros k ys off i Hk L Hi; [lia|].
+  destruct ys as [|y0 ys]; [discriminate|]. cbn [List.length] in L. injection L as L.
+  rewrite knots_cons. cbn [interp].
+  assert (Mono : forall a b : nat, (a < b)%nat -> qnat (S a) * k < qnat (S b) * k).
+  { intros a b Hab. apply Qmult_lt_compat_r; [exact Hk|]. apply qnat_lt. lia. }
+  destruct i as [|i].
+  - rewrite Nat.add_0_r. assert (E : Qle_bool (qnat (S off) * k) (qnat (S off) * k) = true) by (apply Qle_bool_iff; lra).
+    rewrite E. reflexivity.
+  - assert (E0 : Qle_bool (qnat (S (off + S i)) * k) (qnat (S off) * k) = false).
+    { apply Qle_bool_false_of_lt. apply Mono. lia. }
+    rewrite E0.
+    destruct n as [|n]; [lia|]. destruct ys as [|y1 ys']; [discriminate|].
+    pose proof (IH k (y1 :: ys') (S off) i Hk L ltac:(lia)) as R.
+    replace (S off + i)%nat with (off + S i)%nat in R by lia.
+    rewrite knots_cons in R. rewrite knots_cons.
+    destruct i as [|i].
+    + replace (off + 1)%nat with (S off) by lia.
+      assert (E1 : Qle_bool (qnat (S (S off)) * k) (qnat (S (S off)) * k) = true) by (apply Qle_bool_iff; lra).
+      rewrite E1. cbn [nth].
+      assert (D : qnat (S (S off)) * k - qnat (S off) * k == k) by (rewrite (qnat_S (S off)); ring).
+      rewrite D. field. lra.
+    + assert (E1 : Qle_bool (qnat (S (off + S (S i))) * k) (qnat (S (S off)) * k) = false).
+      { apply Qle_bool_false_of_lt. apply Mono. lia. }
+      rewrite E1. cbn [nth]. cbn [nth] in R. exact R.
+Qed.
+
+Theorem convert_fine_at_knots ramp (k : nat) i : (0 < k)%nat -> (i < List.length ramp)%nat ->
+  nth (S i * k - 1) (convert_fine ramp (/ qnat k)) 0 == nth i ramp 0.
+Proof.
+  intros Hk Hi. unfold convert_fine. set (n := List.length ramp).
+  assert (Kp : 0 < qnat k) by (change 0 with (qnat 0); apply qnat_lt; exact Hk).
+  assert (EK : / / qnat k == qnat k) by (apply Qinv_involutive).
+  assert (Len : ceil_nat (qnat n * / / qnat k) = (n * k)%nat).
+  { unfold ceil_nat. assert (E : qnat n * / / qnat k == inject_Z (Z.of_nat (n * k))).
+    { rewrite EK. unfold qnat. rewrite Nat2Z.inj_mul, inject_Z_mult. reflexivity. }
+    rewrite (Qceiling_comp _ _ E), Qceiling_Z, Nat2Z.id. reflexivity. }
+  rewrite Len.
+  assert (Pos : (S i * k - 1 < n * k)%nat) by (assert (S i * k <= n * k)%nat by (apply Nat.mul_le_mono_r; lia); nia).
+  rewrite nth_map_seq_gen by exact Pos.
+  rewrite Qred_correct.
+  assert (EX : qnat (S (S i * k - 1)) == qnat (S (0 + i)) * qnat k).
+  { replace (S (S i * k - 1)) with (S i * k)%nat by nia. unfold qnat. rewrite Nat2Z.inj_mul, inject_Z_mult. reflexivity. }
+  assert (XS : map (fun i0 : nat => qnat (S i0) * / / qnat k) (seq 0 n) = map (fun i0 : nat => qnat (S i0) * / / qnat k) (seq 0 n)) by reflexivity.
+  transitivity (interp (knots (/ / qnat k) 0 n) ramp (qnat (S (0 + i)) * / / qnat k)).
+  - unfold knots. cbn [Nat.add]. apply interp_comp. rewrite EX, EK. reflexivity.
+  - apply interp_at_knot; [rewrite EK; exact Kp|reflexivity|exact Hi].
+Qed.
+
+(* ---------- exactness of the averages: where a grid step is exactly m profile steps long (ct = m), grid step i carries the plain
+   mean of the m profile values it covers (the profile padded with its last value) ---------- *)
+Lemma qnat_mul a b : qnat (a * b) == qnat a * qnat b.
+Proof. unfold qnat. rewrite Nat2Z.inj_mul, inject_Z_mult. reflexivity. Qed.
+Lemma ceil_nat_int q n : q == qnat n -> ceil_nat q = n.
+Proof. intros E. unfold ceil_nat. rewrite (Qceiling_comp _ _ E). unfold qnat. rewrite Qceiling_Z, Nat2Z.id. reflexivity. Qed.
+Lemma floor_nat_int q n : q == qnat n -> floor_nat q = n.
+Proof. intros E. unfold floor_nat. rewrite (Qfloor_comp _ _ E). unfold qnat. rewrite Qfloor_Z, Nat2Z.id. reflexivity. Qed.
+
+Theorem convert_coarse_exact_means ramp (m : nat) i : (0 < m)%nat -> (i < ceil_nat (qnat (List.length ramp) / qnat m))%nat ->
+  nth i (convert_coarse ramp (qnat m)) 0 ==
+  qsum (map (fun j => nth j (ramp ++ repeat (last ramp 0) m) (last ramp 0)) (seq (i * m) m)) / qnat m.
+Proof.
+  intros Hm Hi. unfold convert_coarse. rewrite nth_map_seq_gen by exact Hi. rewrite Qred_correct.
+  assert (Mp : 0 < qnat m) by (change 0 with (qnat 0); apply qnat_lt; exact Hm).
+  assert (Ea : qnat i * qnat m == qnat (i * m)) by (rewrite qnat_mul; reflexivity).
+  assert (Eb : qnat (S i) * qnat m == qnat (S i * m)) by (rewrite qnat_mul; reflexivity).
+  rewrite (ceil_nat_int _ _ Ea), (floor_nat_int _ _ Eb).
+  rewrite (ceil_nat_int (qnat m) m) by reflexivity.
+  replace (S i * m - i * m)%nat with m by nia.
+  destruct (Qlt_le_dec (qnat i * qnat m) (qnat (i * m))) as [C|_]; [rewrite Ea in C; exfalso; lra|].
+  destruct (Qlt_le_dec (qnat (S i * m)) (qnat (S i) * qnat m)) as [C|_]; [rewrite Eb in C; exfalso; lra|].
+  assert (D : qnat (S i) * qnat m - qnat i * qnat m == qnat m) by (rewrite (qnat_S i); ring).
+  rewrite D. field. lra.
+Qed.
